@@ -73,7 +73,8 @@ SPECIALS = ["\n", "\t", " ", "  ", "\r", "\r\n", "\x00", "\x1b[0m", "\x7f", "\x8
             "\u200b", "\u0301", "e\u0301\u0323", "\U0001F600", "\U0001F468\u200d\U0001F469", "\U00010000",
             "\U0010FFFF", "'", '"', "\\", "\\n", "'''", '"""', "$(", "`", "#", "\ufeff", "\u202e", "\x1c",
             "\x0b", "\x0c", "\u3000", "{", "}", "[", "]", ",", ": ", "\\u00e9", "\\\\"]
-SURROGATES = ["\udc80", "\udcff", "\udfff"]     # low surrogates only (what surrogateescape yields): no accidental pairs
+# low surrogates only (what surrogateescape yields): two pieces can never form an accidental pair
+SURROGATES = ["\udc80", "\udcff", "\udfff"]
 HISTCONTROLS = [[], [], [], ["ignoredups"], ["ignoredups"], ["ignoreerr"], ["ignorespace"],
                 ["ignoredups", "ignoreerr"], ["ignoredups", "ignorespace"], ["ignoreerr", "ignorespace"],
                 ["ignoredups", "ignoreerr", "ignorespace"]]
@@ -174,8 +175,7 @@ def _setup(scratch):
             c.execute("PRAGMA synchronous=OFF")
             return c
 
-    if not isinstance(xhs.sqlite3, _NoSync) and type(xhs.sqlite3).__name__ != "_NoSync":
-        xhs.sqlite3 = _NoSync()
+    xhs.sqlite3 = _NoSync()
     signal.signal(signal.SIGALRM, _alarm)
     # flusher threads and print_warning write to fd 2; keep the check's output clean
     try:
@@ -273,7 +273,11 @@ class Driver:
         self.op_inflight_skips = False
         self.closed = False
         _cur["driver"] = self
-        self._guarded(self._open_initial)
+        try:
+            self._guarded(self._open_initial)
+        except BaseException:
+            self.close()
+            raise
 
     # -- plumbing ------------------------------------------------------------------------
     def case(self):
@@ -378,6 +382,15 @@ class Driver:
         return r, cmd
 
     def _new_object(self, filename=None):
+        try:
+            return self._new_object2(filename)
+        except (Mismatch, common.HarnessError):
+            raise
+        except Exception as e:  # noqa: BLE001
+            self.fail("exception", "opening the %s history (file %s) raised %s: %s" % (
+                self.backend, "exists" if filename else "new", type(e).__name__, e))
+
+    def _new_object2(self, filename=None):
         self.nsess += 1
         sid = "c12s%d" % self.nsess
         if self.backend == "json":
@@ -400,9 +413,13 @@ class Driver:
             for k in range(n):
                 r, cmd = self._mkcmd("prior-cmd %d \u00fc" % k, 0, 1000, 0.5, False, None, None)
                 r.sid = self.sid
-                h0.append(cmd)
+                ok, v = self._call(h0.append, cmd)
+                if not ok:
+                    self.fail("exception", "append(%r) raised %s: %s" % (cmd["inp"], type(v).__name__, v))
                 self.others.append(r)
-            h0.flush(at_exit=True)
+            ok, v = self._call(h0.flush, at_exit=True)
+            if not ok:
+                self.fail("exception", "flush(at_exit=True) raised %s: %s" % (type(v).__name__, v))
             for fl in self.started:
                 fl.join(JOIN_TIMEOUT)
             self.started = []
@@ -946,10 +963,7 @@ class Driver:
         if not ok:
             self.fail("exception", "%s raised %s: %s" % (what, type(v).__name__, v))
         E = self._expected(need_view=bool(op.get("ref")))
-        if self.backend == "json":
-            want = self.others + E      # the file of the current session is listed last, through items()
-        else:
-            want = self.others + E
+        want = self.others + E      # JSON: the file of the current session is listed last, through items()
         self._items_common(what, v, list(reversed(want)) if nf else want)
 
     def _rd_disk(self, op):
@@ -1032,7 +1046,10 @@ def _show(op):
 
 def check_history(case, exclude=()):
     """Re-execute {'backend','params','ops'} without Hypothesis.  -> (Failure | None, Driver)"""
-    d = Driver(case["backend"], case["params"], exclude=exclude, tolerate=case.get("tolerate", ()))
+    try:
+        d = Driver(case["backend"], case["params"], exclude=exclude, tolerate=case.get("tolerate", ()))
+    except Mismatch as e:
+        return e.failure, None
     try:
         try:
             for op in case["ops"]:
@@ -1637,6 +1654,8 @@ def main(run):
         "lone surrogates are generated for the JSON backend and lazyjson only (sqlite3 cannot bind them; they are "
         "not Unicode scalar values); the lazyjson domain excludes the reserved key '__total__', non-string keys, "
         "NaN/Infinity, and negative or out-of-range integer indices on LJNode (history code never passes them)",
+        "SQLite connections opened by xonsh get PRAGMA synchronous=OFF from the harness (an append costs 0.4 ms "
+        "instead of 20 ms; durability is the subject of C13, not of this property)",
         "reopen happens on a quiescent object (all flushers joined), as at the start of a new session; "
         "all_items(newest_first=True) of the JSON backend is not compared (ordering across files is not part of "
         "the property)",
